@@ -248,6 +248,9 @@ func postCase(seed uint64, posters, m, q, keys int) string {
 	stop := make(chan struct{})
 	cdone := make(chan struct{})
 	slow := rng.Chance(1, 3)
+	nEv := 0
+	var mainMu sync.Mutex
+	drawing := int32(1)
 	go func() {
 		defer close(cdone)
 		for {
@@ -260,6 +263,17 @@ func postCase(seed uint64, posters, m, q, keys int) string {
 					atomic.AddInt64(&keysSeen, 1)
 				case vaxis.SyncFunc:
 					e()
+				}
+				// the main goroutine also draws and renders
+				if nEv++; nEv%16 == 0 && atomic.LoadInt32(&drawing) == 1 {
+					// (drawing and Close belong to the same application goroutine: serialised by mainMu)
+					mainMu.Lock()
+					if atomic.LoadInt32(&drawing) == 1 {
+						w := vx.Window()
+						w.Print(vaxis.Segment{Text: fmt.Sprint(nEv)})
+						vx.Render()
+					}
+					mainMu.Unlock()
 				}
 				if slow {
 					runtime.Gosched()
@@ -326,7 +340,14 @@ func postCase(seed uint64, posters, m, q, keys int) string {
 		}
 		time.Sleep(200 * time.Microsecond)
 	}
+	atomic.StoreInt32(&drawing, 0)
+	mainMu.Lock()
 	closeOK, pmsg := withBound(vx.Close)
+	mainMu.Unlock()
+	if closeOK && pmsg == "" {
+		// Close is idempotent: a second (sequential) call returns at once
+		closeOK, pmsg = withBound(vx.Close)
+	}
 	close(stop)
 	<-cdone
 	leak := waitGoroutines(base, time.Second)
